@@ -152,6 +152,28 @@ func init() {
 	})
 	registerLocals("base/unixutil", func(files []*ast.File, fset *token.FileSet) []string {
 		var out []string
+		// freq.go: `freq * (65536.0 * 1e6)` and `float64(scaledPPM) / (65536.0 * 1e6)`:
+		// the outermost constant operand (pre-order: first literal found) is the scale.
+		if fd := findFunc(files, "ScaledPPMFromFreq"); fd != nil {
+			l := opLits(fd, token.MUL, token.MUL_ASSIGN)
+			if len(l) == 2 {
+				out = append(out, fmt.Sprintf("def scaledPPMFromFreqScale : Int := %s", l[0]))
+			} else {
+				broken("unixutil.ScaledPPMFromFreq: shape `freq * (a * b)` not found")
+			}
+		} else {
+			broken("unixutil.ScaledPPMFromFreq not found")
+		}
+		if fd := findFunc(files, "FreqFromScaledPPM"); fd != nil {
+			l := opLits(fd, token.QUO, token.QUO_ASSIGN)
+			if len(l) == 1 {
+				out = append(out, fmt.Sprintf("def freqFromScaledPPMScale : Int := %s", l[0]))
+			} else {
+				broken("unixutil.FreqFromScaledPPM: shape `float64(x) / (a * b)` not found")
+			}
+		} else {
+			broken("unixutil.FreqFromScaledPPM not found")
+		}
 		fd := findFunc(files, "TimevalFromNsec")
 		if fd == nil {
 			broken("unixutil.TimevalFromNsec not found")
